@@ -251,7 +251,7 @@ func VerifH_C08_Decode() {
 
 // genLines: a double-quoted content of 1..3 lines; continuation lines are indented by a
 // solver-chosen number of blanks around and beyond the quote columns in play.
-func genLines(tag string, maxLines int) []byte {
+func genLines(tag string, maxLines int, rich bool) []byte {
 	var raw []byte
 	if vrt.Bool(tag + ".l0") {
 		raw = append(raw, 'a')
@@ -259,9 +259,21 @@ func genLines(tag string, maxLines int) []byte {
 	nl := vrt.Choice(tag+".lines", maxLines+1)
 	for i := 1; i <= nl; i++ {
 		raw = append(raw, '\n')
-		k := []int{0, 3, 8, 13, 17}[vrt.Choice(tag+".ind"+strconv.Itoa(i), 5)]
+		widths := []int{0, 3, 8, 13, 17}
+		if rich {
+			// indentation may start with a tab (8 columns) and hit the quote column exactly
+			// (13 = 8+5); the text after it may itself begin with a tab
+			widths = []int{0, 3, 5, 8, 13, 17}
+			if vrt.Bool(tag + ".tab" + strconv.Itoa(i)) {
+				raw = append(raw, '\t')
+			}
+		}
+		k := widths[vrt.Choice(tag+".ind"+strconv.Itoa(i), len(widths))]
 		for j := 0; j < k; j++ {
 			raw = append(raw, ' ')
+		}
+		if rich && vrt.Bool(tag+".tabtext"+strconv.Itoa(i)) {
+			raw = append(raw, '\t')
 		}
 		raw = append(raw, 'b')
 	}
@@ -285,7 +297,7 @@ func VerifH_C08_Concat() {
 				col++
 			}
 		}
-		raw := genLines(tag, vrt.Param("lines", 1))
+		raw := genLines(tag, vrt.Param("lines", 1), p == 0)
 		if vrt.Bool(tag + ".single") {
 			text += "'" + string(raw) + "'"
 			want = append(want, raw...)
